@@ -79,8 +79,13 @@ def begin_match(m, lin, unsure):
     if cmdline.link and 'urls' in rule:
         urls = json_get(rule, 'urls', list)
         if urls:
-            beg_tag += ('<a href="' + json_get(urls[0], 'value', str)
-                        + '" target="_blank">')
+            # the address becomes an attribute value: escape it (a literal
+            # '<br>\n' would be taken for the end of a source line)
+            href = json_get(urls[0], 'value', str)
+            for (c, r) in (('&', '&amp;'), ('"', '&quot;'),
+                                ('<', '&lt;'), ('>', '&gt;')):
+                href = href.replace(c, r)
+            beg_tag += '<a href="' + href + '" target="_blank">'
             end_href = '</a>'
     return (beg_tag, end_href)
 
